@@ -613,3 +613,19 @@ def parseProgram (s : TokStream) (fuel : Nat) : Res ParseResult :=
 def defaultFuel (s : TokStream) : Nat := 4 * s.toks.length + 64
 
 end Grol.Parser
+
+namespace Grol.Parser
+open Grol.Generated
+
+/-- executable form of the two lexer facts the parser relies on (`StreamWF` in GrolProofs/ParseSafe.lean),
+for token `i` of the stream -/
+def tokWFb (s : TokStream) (i : Nat) : Bool :=
+  decide ((s.get i).lastNl ≤ min (s.get i).posAfter s.inputLen) &&
+  (if (s.get i).type = .LINECOMMENT then
+     (s.get (i + 1)).hadNl || decide ((s.get (i + 1)).type = .EOF) || decide ((s.get (i + 1)).type = .EOL)
+   else true)
+
+/-- checks every position up to the repeated end marker -/
+def streamWFb (s : TokStream) : Bool := (List.range (s.toks.length + 1)).all (tokWFb s)
+
+end Grol.Parser
